@@ -19,6 +19,7 @@ from vf.vloop import run_virtual, HangDetected
 ID = "C02"
 LEVEL = "exploration"
 BACKENDS = ["pydantic", "fallback"]   # every case is executed under both validation backends
+LOGLEVELS = ["default", "debug"]   # every case also runs with the root logger at DEBUG (as --verbose does)
 SHARDS = {"quick": 4, "thorough": 16}
 BUDGET_S = {"quick": 100.0, "thorough": 900.0}
 TECHNIQUE = ("runtime monitoring: every object produced by every discovered emitter (constructors, send_* helpers, "
